@@ -11,8 +11,14 @@
 
 struct ByteSource {
   const uint8_t* p; size_t n; size_t pos;
+  size_t tailpos;  // bytes taken from the END of the string (side choices that must not shift the forward decoding)
+  uint64_t tailmix;
   double prev;   // last double drawn (for the "neighbour" classes)
-  ByteSource(const uint8_t* p_, size_t n_) : p(p_), n(n_), pos(0), prev(0.0) {}
+  ByteSource(const uint8_t* p_, size_t n_) : p(p_), n(n_), pos(0), tailpos(0), tailmix(0), prev(0.0) {}
+  // a byte from the end of the string; 0 (the simplest alternative) when the string is too short. Used for choices added to a
+  // harness after replays were saved (storage kind of an operand, ...): the forward decoding stays what it was.
+  uint8_t tail_u8() { uint8_t b = tailpos < n ? p[n - 1 - tailpos] : 0; tailpos++; tailmix = tailmix * 1099511628211ULL + b + 1; return b; }
+  unsigned tail_choose(unsigned k) { return k <= 1 ? 0u : (unsigned)(tail_u8() % k); }
   bool exhausted() const { return pos >= n; }
   uint8_t u8() { return pos < n ? p[pos++] : 0; }
   // choice among k alternatives, k in 1..256
